@@ -338,7 +338,11 @@ pub fn execute(u: &Universe, rgs: &[RgsSnapshot], steps: &[Step], st: &mut Stats
 				}
 				if let Facts::CA { scid, .. } = &u.msgs[*i].facts {
 					if real_ok == Some(true) && !ca_accepted.insert(*scid) {
-						st.wit("channel_reannounced_after_removal");
+						if prev_snap.channels.contains_key(scid) {
+							st.wit("channel_replaced_by_conflicting_announcement");
+						} else {
+							st.wit("channel_reannounced_after_removal");
+						}
 					}
 					if real_ok == Some(false) && !u.msgs[*i].always_invalid && !prev_snap.channels.contains_key(scid) {
 						st.wit("announcement_rejected_while_tombstoned");
